@@ -238,13 +238,25 @@ where
             // Received key bundle from a member.
             SpacesArgs::KeyBundle { key_bundle } => {
                 let mut manager = self.inner.write().await;
-                let event = manager
+
+                // If we already registered this key bundle then return now.
+                let is_known = manager
                     .identity
-                    .process_key_bundle(message.author(), key_bundle)
+                    .has_key_bundle(message.author(), key_bundle)
                     .await
                     .map_err(ManagerError::IdentityManager)?;
 
-                (None, None, vec![event])
+                if is_known {
+                    (None, None, vec![])
+                } else {
+                    let event = manager
+                        .identity
+                        .process_key_bundle(message.author(), key_bundle)
+                        .await
+                        .map_err(ManagerError::IdentityManager)?;
+
+                    (None, None, vec![event])
+                }
             }
             SpacesArgs::Auth { group_action, .. } => {
                 // Promote and demote actions are not supported yet, we reject them instead of
